@@ -110,6 +110,13 @@ def gen_scenario(rng, k):
             f1.setdefault('frames', []).append({'id': 'f-sbx', 'subcategorizationFrame': 'frame with senses attribute', 'senses': [sn[0]['id']]})
             sn[1].setdefault('subcat', []).append('f-sbx')
         f2 = g.lexicon('h', '1', vf, n_syn=1, n_ent=1)
+        for k_, lx_ in enumerate((f1, f2)):
+            for j_, y_ in enumerate(lx_.get('synsets', [])):
+                # ILIs of their own, without definitions: the shared ILI inventory outlives a removal, so what a
+                # re-added lexicon finds there depends on the history (set aside by C05, not a matter of C01)
+                if y_.get('ili') not in ('', 'in', None):
+                    y_['ili'] = f'if{k_}{j_}'
+                    y_.pop('ili_definition', None)
         both = {'k': 'add', 'res': docs.resource([f1, f2], vf), '_mem': True, '_mem_id': 'm1'}
         ops += [dict(both), {'k': 'obs'}, {'k': 'remove', 'spec': 'f:1', '_removed': ['f:1']}, {'k': 'obs'}, dict(both), {'k': 'obs'}]
     return {'ops': ops, 'batch': rng.choice([None, 1, 2, 3, 7])}
@@ -213,12 +220,13 @@ def strip_form_leak(got, exp, key, scope_spec, inst):
             for t in a.get('tags', []):
                 item = [t['text'], t['category']]
                 if idx < len(exp['forms']) and f['tags'].count(item) > exp['forms'][idx]['tags'].count(item):
-                    f['tags'].remove(item)
+                    # the extension's rows were written after the form's own: take the surplus away from the end
+                    del f['tags'][len(f['tags']) - 1 - f['tags'][::-1].index(item)]
                     removed.append(['tag', f['form'], item])
             for p in a.get('pronunciations', []):
                 item = store._pron(p)
                 if idx < len(exp['forms']) and f['prons'].count(item) > exp['forms'][idx]['prons'].count(item):
-                    f['prons'].remove(item)
+                    del f['prons'][len(f['prons']) - 1 - f['prons'][::-1].index(item)]
                     removed.append(['pronunciation', f['form'], item])
     return got, removed or None
 
